@@ -588,8 +588,21 @@ def combined(ctx):
     fig, ax = plt.subplots()
     CALLS.clear()
     kw = {} if case.multiplier is None else {"multiplier": case.multiplier}
+    # keyword dictionaries for the two sub-plots, as a user who plots several fields in the
+    # same style keeps them (they are handed over again further down)
+    skw = gen.pick(rng, [None, {"colorbar": False}, {"colorbar": False, "cmap": "viridis"}])
+    vkw = gen.pick(rng, [None, {"colorbar": False}])
+    skw0, vkw0 = (None if skw is None else dict(skw)), (None if vkw is None else dict(vkw))
+    if skw is not None:
+        kw["scalar_kw"] = skw
+    if vkw is not None:
+        kw["vector_kw"] = vkw
     f.mpl(ax=ax, **kw)
     guard.verify()
+    if not (skw == skw0 and vkw == vkw0):
+        # not a claim of the statement by itself (observed, not judged); what matters is
+        # whether the next plot with these dictionaries still draws the right cells
+        ctx.event("combined.caller_kw_modified_by_plot_call")
     m = mult_and_labels(ctx, case, ax, info)
     ims, qs = calls_on(ax, "imshow"), calls_on(ax, "quiver")
     ctx.check("C20.combined.calls", len(ims) == (0 if nvdim == 2 else 1)
@@ -615,6 +628,26 @@ def combined(ctx):
             ctx.check("C20.vector.positions",
                       coords_close(X, case.centres[0] / m, scale)
                       and coords_close(Y, case.centres[1] / m, scale), X=X, Y=Y, **info)
+    if vals is not None and ims and rng.random() < 0.6:
+        # history: the validity changes (setter or in place) and the field is drawn again on
+        # fresh axes with the very same keyword dictionaries: the cells hidden now are the
+        # ones that are invalid now
+        new_valid = rng.random(tuple(case.n)) > rng.uniform(0.2, 0.6)
+        if rng.random() < 0.5:
+            f.valid = new_valid
+        else:
+            f.valid[...] = new_valid
+        fig2, ax2 = plt.subplots()
+        CALLS.clear()
+        f.mpl(ax=ax2, **kw)
+        ims2 = calls_on(ax2, "imshow")
+        if ims2:
+            img2 = np.asarray(ims2[0][2][0], dtype=float)
+            old_valid, case.valid = case.valid, new_valid
+            check_hidden(ctx, case, img2.T if img2.ndim == 2 else img2, ~new_valid, none, vals,
+                         dict(info, second_plot_after_validity_change=True), "C20.scalar.image")
+            case.valid = old_valid
+        ctx.event("combined.replotted_after_validity_change")
     finish(ctx, case, "combined", (nvdim, mclass), bool(case.valid.any()))
 
 
